@@ -4,6 +4,7 @@ import (
 	"context"
 	"fmt"
 	"math/rand"
+	"runtime"
 	"sync/atomic"
 	"time"
 
@@ -107,6 +108,7 @@ func RunSyncStorm(seed int64, idx int) *Result {
 				h, _ := nd.HV()
 				nd.ML.HandleConsensusMessage(nd.ctx, nd.ping.CreatePrepareMessage(primitives.BlockHeight(h), primitives.View(7000+i), []byte("junk")).ToConsensusRawMessage())
 				i++
+				runtime.Gosched()
 			}
 		}
 	}()
